@@ -227,6 +227,14 @@ def run(ctx):
                      "whose closing SOH was corrupted takes the head of the following valid frame along", loc(r.ast))
     if n_drop < 3:
         raise AnalysisError(f"decode: only {n_drop} drop-the-bad-frame return paths found")
+    # ... while a frame that IS returned as a message is consumed to its own end: the re-synchronisation point (an earlier marker-like
+    # text inside the frame, e.g. a Text field quoting a header) is not its length
+    for r in dv.returns:
+        if dv.is_message_return(r):
+            bad_ = any(c_ in resyncs for c_ in derived_calls(r.ast.value.elts[1], r.id))
+            ctx.instance(R2, "Codec.decode[message return consumes the frame, not up to a resync point]", not bad_,
+                         "the length reported with a decoded message can come out of the bad-frame re-synchronisation scan: a valid frame whose value contains the "
+                         "marker text is consumed only up to that text, the rest of it is parsed again as garbage", loc(r.ast))
     ctx.floor(R5, 5)
 
     # ------------------------------------------------------------------ rule 6
